@@ -233,12 +233,14 @@ PLANS["X06"] = dict(
 def run_x07(ctx):
     shards = ctx.gen("misc")
     ctx.validate("Misc_Trace", shards)
+    shards = ctx.gen("miscedges", shards=1)
+    ctx.validate("Misc_Trace", shards, stage="edge-case-table")
 
 
 PLANS["X07"] = dict(
     run=run_x07, signature=sig_default,
     technique="TLA+ decision table for geojson.Properties.Must*, definitions for BBox, Ring.Closed, and relational checks (integer residuals) for the remaining small public functions; TLC validates traces of the real calls",
-    level_text="extended coverage (no listed property): Properties.MustBool/MustInt/MustFloat64/MustString for every kind of stored value x default supplied or not (value, default or panic exactly as the table says); NewBBox / BBox.Valid / BBox.Bound; mvt.NewLayers / ToFeatureCollections (version 1 and the default extent, same feature pointers, map round trip); Set / Tiles ToFeatureCollection (one counter-clockwise closed polygon per tile with the tile's bound); wkb / ewkb MarshalToHex, MustMarshal, MustMarshalToHex against Marshal; Ring.Closed; planar.DistanceSquared, DistanceFromSegment, project.MercatorScaleFactor (1e-8 relative); geo.Bearing as the inverse of PointAtBearingAndDistance, PointAtDistanceAlongLine, LengthHaversign, NewBoundAroundPoint, BoundHeight, BoundWidth, BoundPad (stated tolerances).",
+    level_text="extended coverage (no listed property): Properties.MustBool/MustInt/MustFloat64/MustString for every kind of stored value x default supplied or not (value, default or panic exactly as the table says); NewBBox / BBox.Valid / BBox.Bound; mvt.NewLayers / ToFeatureCollections (version 1 and the default extent, same feature pointers, map round trip); Set / Tiles ToFeatureCollection (one counter-clockwise closed polygon per tile with the tile's bound); wkb / ewkb MarshalToHex, MustMarshal, MustMarshalToHex against Marshal; Ring.Closed; planar.DistanceSquared, DistanceFromSegment, project.MercatorScaleFactor (1e-8 relative); geo.Bearing as the inverse of PointAtBearingAndDistance, PointAtDistanceAlongLine, LengthHaversign, NewBoundAroundPoint, BoundHeight, BoundWidth, BoundPad (stated tolerances). Edge cases as a second decision table (EdgeOutcome): PointAtDistanceAlongLine on empty / one-vertex lines and negative, zero and oversize distances; ChildrenInZoomRange argument checks; Quadtree.Bound; clip.Bound with empty operands (neutral element), overlapping and disjoint boxes, a bound through clip.Geometry; NewBoundAroundPoint next to a pole (capped, every longitude) and across the antimeridian (wrapped).",
     level_note="numeric relations are computed as integer residuals by the harness and compared with a tolerance by TLC; trips of 1..200 km below 75 degrees latitude",
     rule="one event = one call or one small group of related calls", assumptions=[], trusted_base=["TLC 2026.09.04", "CommunityModules Json/IOUtils"],
 )
